@@ -244,6 +244,10 @@ class Ctx:
             def __init__(self):
                 self.sid = sid
 
+            if spec.get("falsy"):
+                def __len__(self):          # a service that is an (empty) container: falsy, and a service all the same
+                    return 0
+
             if fl == "threading":
                 def run(self):
                     return run_sync(ctx, ("s", sid), spec, ())
@@ -464,6 +468,13 @@ async def run_async(ctx, key, spec, args, kwargs=None, executed=False):
     except cancelled_types:
         log("Cancelled", key[0], key[1])
         cl = spec.get("cleanup", {})
+        for _ in range(cl.get("swallow", 0) if fl == "asyncio" else 0):
+            # a payload that takes a cancellation as "retry": it awaits again and only gives up when it is cancelled
+            # once more (asyncio cancels once per request; closing must keep asking)
+            try:
+                await asyncio.sleep(3600)
+            except asyncio.CancelledError:
+                log("CleanStep", key[0], key[1])
         for _ in range(cl.get("sync", 0)):
             log("CleanStep", key[0], key[1])
         if cl.get("shield", 0) and fl == "trio":
